@@ -58,6 +58,8 @@ type DB struct {
 	eventCtr  *uint64 // shared global event counter (owned by World)
 	// chooseVictim picks which member of a wait-for cycle of n sessions is aborted (0 = the closer)
 	chooseVictim func(n int) int
+	// onTaintedCommit is told when a transaction commits state the typed rows could not represent
+	onTaintedCommit func(reason string)
 }
 
 type advLock struct {
@@ -83,6 +85,10 @@ type txLevel struct {
 	rowLocks []rowKey
 	advLocks []string
 	aborted  bool
+	// taint: a statement of this (sub)transaction stored something the typed rows cannot represent
+	// (e.g. a jsonb metadata column that is no longer an object). Harmless if rolled back; if it commits
+	// the run decides nothing (see World.unsupportedSQL).
+	taint string
 }
 
 type Session struct {
@@ -209,6 +215,9 @@ func (s *Session) mergeTopLocked() {
 	}
 	p.rowLocks = append(p.rowLocks, t.rowLocks...)
 	p.advLocks = append(p.advLocks, t.advLocks...)
+	if p.taint == "" {
+		p.taint = t.taint
+	}
 }
 
 // RollbackTo discards the effects and locks of the named savepoint and everything inside it. The
@@ -287,6 +296,9 @@ func (s *Session) commitTopLocked(task string) {
 	t := s.levels[0]
 	s.levels = nil
 	db := s.db
+	if t.taint != "" && db.onTaintedCommit != nil {
+		db.onTaintedCommit(t.taint)
+	}
 	if len(t.order) > 0 {
 		db.commitSeq++
 		*db.eventCtr++
